@@ -2,6 +2,8 @@
 //   sp.hist  <build> (<op> <args> ;)*   after the build and after every step: six public fields + four views
 //   sp.probe <build> i j v              get / insert with arbitrary (also out-of-range) arguments
 //   sp.prod  <build> x y a              products, transpose product, inner products, dense twin, scaled product
+//   sp.hprod <build> (<op> <args> ;)* | x y a   the six product observables on the matrix a history leaves behind, then
+//                                       scale(a) and the six observables again (scaling scales EVERY product)
 //   <build> ::= T r c [i@j@v,...]  (from_triplets)  |  V r c [vals] [row_index] [col_start]  (from_vecs)
 // The dump is canonical in the order of entries *within* one column (see coq/Model/SparseOps.v).
 use std::panic::{catch_unwind, AssertUnwindSafe};
@@ -88,6 +90,19 @@ fn views<T: Elt>(s: &Sparse<T>, out: &mut Out) {
 
 fn state<T: Elt>(s: &Sparse<T>, out: &mut Out) { fields(s, out); views(s, out); }
 
+// A x, A^T y, transpose(A) y, <y, A x>, <A^T y, x>, to_dense(A); the operands must come back untouched
+fn products<T: Elt>(s: &Sparse<T>, x: &Vector<T>, y: &Vector<T>, out: &mut Out) {
+    let same_v = |p: &Vector<T>, q: &Vector<T>| { let mut o1 = Out::new(); let mut o2 = Out::new(); o1.v(p); o2.v(q); o1.toks == o2.toks };
+    let (xs, ys) = (x.clone(), y.clone());
+    guarded(out, |o| { let r = s.multiply(x); o.v(&r); });
+    guarded(out, |o| { let r = s.transpose_multiply(y); o.v(&r); });
+    guarded(out, |o| { let t = s.transpose(); let r = t.multiply(y); o.v(&r); });
+    guarded(out, |o| { let u = s.multiply(x); let d = y.dot(&u); o.s(&d); });
+    guarded(out, |o| { let w = s.transpose_multiply(y); let d = w.dot(x); o.s(&d); });
+    if !same_v(x, &xs) || !same_v(y, &ys) { panic!("harness: operand mutated by a sparse product"); }
+    guarded(out, |o| { let d = s.to_dense(); o.m(&d); });
+}
+
 pub fn run<T: Elt>(kind: &str, a: &mut Args, out: &mut Out) {
     match kind {
         "sp.hist" => {
@@ -127,6 +142,27 @@ pub fn run<T: Elt>(kind: &str, a: &mut Args, out: &mut Out) {
             if !same_v(&x, &xs) || !same_v(&y, &ys) { panic!("harness: operand mutated by a sparse product"); }
             guarded(out, |o| { let d = s.to_dense(); o.m(&d); });
             guarded(out, |o| { s.scale(&sc); let r = s.multiply(&x); o.v(&r); });
+        }
+        "sp.hprod" => {
+            let mut s = build::<T>(a);
+            loop {
+                let op = a.word();
+                if op == "|" { break; }
+                let ok = guarded(out, |_o| {
+                    match op {
+                        "insert" => { let (i, j) = (a.usize(), a.usize()); let v = a.s::<T>(); s.insert(i, j, v); }
+                        "scale" => { let v = a.s::<T>(); s.scale(&v); }
+                        "transpose" => { let t = s.transpose(); s = t; }
+                        _ => panic!("harness: unknown sparse op {}", op),
+                    }
+                });
+                if !ok { return; }            // a panicking step ends the case
+                while a.more() { if a.word() == ";" { break; } }
+            }
+            let x = a.v::<T>(); let y = a.v::<T>(); let sc = a.s::<T>();
+            products(&s, &x, &y, out);
+            let ok = guarded(out, |_o| { s.scale(&sc); });
+            if ok { products(&s, &x, &y, out); }
         }
         _ => panic!("harness: unknown kind {}", kind),
     }
